@@ -4,6 +4,7 @@ package resmgr
 
 import (
 	"fmt"
+	topologyaware "github.com/containers/nri-plugins/cmd/plugins/topology-aware/policy"
 	"sort"
 	"strings"
 
@@ -487,5 +488,27 @@ func traceBalloons(e *executor) {
 	fmt.Printf("TRACE    free=%s classes=%v\n", v.snap.Free, v.classes)
 	for _, b := range v.snap.Balloons {
 		fmt.Printf("TRACE    balloon %s cpus=%s shared=%s pods=%v\n", b.Name, b.Cpus, b.SharedIdle, b.Pods)
+	}
+}
+
+// the memory zone the policy's allocator has assigned to every live container
+// is part of "all assignments" (C13): a rejected or identical configuration
+// update must leave it alone
+func init() {
+	wbObservables = func(e *executor, out map[string]string) {
+		alloc := balloons.VerifAllocator(e.h.backend)
+		if alloc == nil {
+			alloc = topologyaware.VerifAllocator(e.h.backend)
+		}
+		if alloc == nil {
+			return
+		}
+		for _, c := range e.m.live() {
+			if z, ok := alloc.AssignedZone(c.ID); ok {
+				out["libmem:"+c.ID] = z.MemsetString()
+			} else {
+				out["libmem:"+c.ID] = "<none>"
+			}
+		}
 	}
 }
